@@ -1,0 +1,24 @@
+//go:build verif
+
+package scanner
+
+// verifCTHook is the observation / scheduling hook of the model-based verification
+// harness (/verif, property C17).  It is nil unless a harness built with `-tags verif`
+// installs a function through VerifCTSetHook.  Events (ev, id, a, b, err):
+//
+//	"sth"    Scan: tree size a, stop index b
+//	"part"   Scan: range [a, b] created by the partition loop
+//	"closef" Scan: about to close the range channel
+//	"fwait"  Scan: all fetchers finished, about to close the entry channel
+//	"mwait"  Scan: all matchers finished
+//	"range"  fetcher id took range [a, b]
+//	"fetch"  fetcher id: GetEntries(a, ...) returned b entries / err
+//	"enq"    fetcher id is about to enqueue the entry with index a (range end b)
+//	"deq"    matcher id dequeued the job with index a (entry.Index b)
+//	"done"   matcher id finished the job with index a
+//	"ctr"    counter a touched for entry index b (0 certsProcessed, 1 precertsSeen,
+//	         2 unparsableEntries, 3 entriesWithNonFatalErrors)
+//	"tick"   ticker computed remaining = a
+//
+// The hook may block (scheduler gate).
+var verifCTHook func(ev string, id int, a, b int64, err error)
